@@ -33,6 +33,15 @@ pub(crate) enum ValToUsize {
 }
 
 impl Value {
+    /// See [`Expr::root_ident`].
+    pub(crate) fn root_ident(&self) -> Option<&Ident> {
+        match self {
+            Value::Ident(ident) => Some(ident),
+            Value::MathExpr(expr) => expr.root_ident(),
+            _ => None,
+        }
+    }
+
     pub fn nil() -> Self {
         Self::MathExpr(Box::new(Expr::Nil))
     }
